@@ -45,6 +45,14 @@ def groups(n, seed):
         pk = dict(step_control_type=[StepControlType.DistanceRatio, StepControlType.Exact, StepControlType.Fixed, StepControlType.ResiduumRatio][i % 4],
                   newton_type=gen.NEWTONS[(i // 4) % 3], lamb_init=[1.0, 0.1, 10.0][i % 3], iteration_limit=150, display_interval=1e9)
         gs.append({"tag": "C01.vertex", "runs": [{"prob": ("boxlp", int(rng.integers(0, 2 ** 31)), int(rng.integers(2, 6))), "params": pk}]})
+    # steep objectives: multipliers of size 1e4 .. 1e6; the optimality tolerance is absolute in the user's units (times the
+    # scale factor), not relative to the size of the multipliers (seed C01-i)
+    for i in range(max(10, n // 8)):
+        kinds = kinds_cycle[i % 6]
+        ps = ("convex_qp", int(rng.integers(0, 2 ** 31)), int(rng.integers(max(3, len(kinds) + 1), 7)), len(kinds),
+              {"row_kinds": kinds, "fmt": ("coo", "csr", "csc")[i % 3], "mag": [1e4, 1e6][i % 2]})
+        pk = dict(iteration_limit=600, display_interval=1e9)
+        gs.append({"tag": "C01.bigmult", "runs": [{"prob": ps, "params": pk}]})
     return gs
 
 
